@@ -83,6 +83,13 @@ STAGES = {
             ('dial-tls-noauth-b1', 'Session', cfg(OP='"Dial"', N='1', MAXR='1', BUDGET='1', CAPSETS='{{}}', CODESETS='{54, 21}',
                                                   POLICIES='{"mandatory", "opportunistic", "none"}', STARTTLSADV='BOOLEAN',
                                                   HANDSHAKES='{"ok", "wrongname", "untrusted", "garbage"}')),
+            # option combinations around the transport: the SSL flag with a dial function of the caller, the flag set and cleared,
+            # a Client that was connected to another server before
+            ('transport-option-variants', 'Session', cfg(OP='"DialAndSend"', N='1', MAXR='1', BUDGET='1', CAPSETS='{{}}', CLASSES='{"p5", "drop"}',
+                                                         VARIANTS='{"ssltoggle", "warmup"}', POLICIES='{"mandatory", "none"}', STARTTLSADV='{TRUE}',
+                                                         HANDSHAKES='{"ok", "untrusted"}')),
+            ('ssl-flag-with-plain-dialer', 'Session', cfg(OP='"DialAndSend"', N='1', MAXR='1', BUDGET='1', CAPSETS='{{}}', CLASSES='{"p5", "drop"}',
+                                                          VARIANTS='{"sslflag"}', POLICIES='{"none"}', HOSTKINDS='{"localhost", "other"}')),
             ('dial-auth-b1', 'Session', cfg(OP='"Dial"', N='1', MAXR='1', BUDGET='1', CAPSETS='{{}}',
                                             CLASSES='{"t4", "p5", "drop", "mal"}',
                                             AUTHTYPES='{"PLAIN", "PLAIN-NOENC", "LOGIN", "CRAM-MD5", "XOAUTH2", "SCRAM-SHA-256", "AUTODISCOVER"}',
